@@ -480,6 +480,212 @@ def r12_10(ctx, fx):
     ctx.floor(rid, k, 25, "Interval members scanned")
 
 
+# ---- R12.11 / R12.12: finite abstractions of the multiplication / division case analysis -----------------------------
+def _ret_call(f, ret):
+    e = f.deref(ret["c"][0]) if ret.get("c") else None
+    while e is not None and e["k"] in ("paren", "cast", "icast") and e.get("c"):
+        e = f.deref(e["c"][-1])
+    return e
+
+
+def r12_11(ctx, fx):
+    from pplv import absint
+    rid = "R12.11"
+    ctx.rule(rid, "a zero bound of a product or quotient is open exactly when zero is not attained: mul_assign_z / div_assign_z (Boundary_defs.hh) take over when the sign of a factor is zero. They are interpreted on the finite abstraction (sign of x1, sign of x2, OPEN flag of each bound, x2 a closed infinity or not): with both signs non-zero the general operation is called on the same operands; a product with a zero factor is the bound 0, open iff EVERY zero factor is an open bound (0 closed times anything attains 0; 0 open times a non-zero bound only approaches it); a non-zero dividend over a zero divisor is an open infinity; a zero dividend gives 0, open iff the dividend's bound is open and the divisor is not a closed infinity")
+    fns = {}
+    for f in fx.functions:
+        if f.flag("pattern") and "Boundary_defs" in f.file and f.name in ("mul_assign_z", "div_assign_z") and f.cfg:
+            fns.setdefault(f.name, f)
+    ctx.require(rid, set(fns) == {"mul_assign_z", "div_assign_z"}, "mul_assign_z / div_assign_z not found in Boundary_defs.hh")
+    n = 0
+    for name in sorted(fns):
+        f = fns[name]
+        pn = [p["n"] for p in f.params]
+        ctx.require(rid, pn == ["to_type", "to", "to_info", "type1", "x1", "info1", "x1s", "type2", "x2", "info2", "x2s"], "%s has other parameters: %s" % (name, pn))
+        bad = []
+        for x1s in (-1, 0, 1):
+            for x2s in (-1, 0, 1):
+                for o1 in (False, True):
+                    for o2 in (False, True):
+                        for ic2 in ((False, True) if x2s != 0 else (False,)):
+                            if name == "div_assign_z" and x1s == 0 and x2s == 0:
+                                continue      # 0 / 0: Interval::div_assign answers EMPTY before; not judged
+                            st = {"x1s": x1s, "x2s": x2s}
+
+                            def atom(e, env, it, st=st, o1=o1, o2=o2, ic2=ic2):
+                                t = f.text(e).replace(" ", "")
+                                if e["k"] == "ref" and t in st:
+                                    return {st[t]}
+                                if e["k"] in ("call", "mcall"):
+                                    if t == "info1.get_boundary_property(type1,OPEN)":
+                                        return {o1}
+                                    if t == "info2.get_boundary_property(type2,OPEN)":
+                                        return {o2}
+                                    if t == "is_boundary_infinity_closed(type2,x2,info2)":
+                                        return {ic2}
+                                return None
+                            it = absint.CfgInterp(f, atom)
+                            try:
+                                paths = it.run({})
+                                got = set()
+                                for ret, env, ev_ in paths:
+                                    c = _ret_call(f, ret)
+                                    cn = f.call_name(c) if c is not None and c["k"] in ("call", "mcall") else None
+                                    args = [f.text(a).replace(" ", "") for a in f.call_args(c)] if cn else []
+                                    if cn in ("mul_assign", "div_assign") and args == ["to_type", "to", "to_info", "type1", "x1", "info1", "type2", "x2", "info2"]:
+                                        got.add(("GENERAL", cn))
+                                    elif cn == "set_zero" and args[:3] == ["to_type", "to", "to_info"]:
+                                        for v in it.ev(f.call_args(c)[3], env):
+                                            got.add(("ZERO", bool(v)))
+                                    elif cn == "set_boundary_infinity" and args[:3] == ["to_type", "to", "to_info"]:
+                                        for v in it.ev(f.call_args(c)[3], env):
+                                            got.add(("INF", bool(v)))
+                                    else:
+                                        raise absint.Unknown("terminal `%s` at line %s" % (f.text(ret)[:50], ret.get("l")))
+                            except absint.Unknown as ex:
+                                raise F.AnalysisBroken("R12.11: %s: %s — the interpretation does not know this form" % (name, ex))
+                            n += 1
+                            if x1s != 0 and x2s != 0:
+                                want = ("GENERAL", name[:-2])
+                            elif name == "mul_assign_z":
+                                want = ("ZERO", (x1s != 0 or o1) and (x2s != 0 or o2))
+                            elif x1s != 0:
+                                want = ("INF", True)
+                            else:
+                                want = ("ZERO", o1 and not ic2)
+                            if got != {want}:
+                                bad.append((x1s, x2s, o1, o2, ic2, got, want))
+
+        def show(v):
+            if v[0] == "GENERAL":
+                return "the general %s" % v[1]
+            return "%s, %s" % ({"ZERO": "the bound 0", "INF": "an infinite bound"}[v[0]], "open" if v[1] else "closed")
+        sg = {-1: "negative", 0: "zero", 1: "positive"}
+        if bad:
+            for x1s, x2s, o1, o2, ic2, got, want in bad:
+                ctx.violation(rid, "%s(x1 %s %s, x2 %s %s%s)" % (name, sg[x1s], "open" if o1 else "closed", sg[x2s], "open" if o2 else "closed", ", a closed infinity" if ic2 else ""), f.where(),
+                              "the function gives %s; a bound that is %s is expected" % (" or ".join(sorted(show(v) for v in got)), show(want)))
+        else:
+            ctx.ok(rid, "%s on the sign / openness abstraction" % name, f.where())
+    ctx.count(rid, "abstract states interpreted", n)
+    ctx.floor(rid, n, 90, "abstract states interpreted")
+
+
+_REPS = {-1: (-3, -1), 0: (0,), 1: (1, 3)}
+
+
+def r12_12(ctx, fx):
+    import itertools
+    from pplv import absint
+    rid = "R12.12"
+    ctx.rule(rid, "the sign case analysis of interval multiplication and division picks the right bounds: Interval::mul_assign(x, y) and div_assign(x, y) are interpreted on the signs of the four bounds (xl, xu, yl, yu; operands that are infinities set aside). Each path through the case analysis computes the lower and the upper bound of the result from named bounds of the operands (f_lower(x) * f_upper(y), ...); for the sign state of that path these must be the bounds that give the minimum / maximum of the four products (quotients) — checked on every assignment of representative values with those signs — the sign handed to mul_assign_z / div_assign_z must be the sign of the bound it accompanies, and the path through the mixed-sign case must compute both candidates of each side. Quotients by an interval that touches zero are judged by R12.11")
+    fns = {}
+    for f in fx.functions:
+        if f.flag("pattern") and "Interval_inlines" in f.file and f.clsn == "Interval" and f.name in ("mul_assign", "div_assign") and [p["n"] for p in f.params] == ["x", "y"] and f.cfg:
+            fns.setdefault(f.name, f)
+    ctx.require(rid, set(fns) == {"mul_assign", "div_assign"}, "Interval::mul_assign(x, y) / div_assign(x, y) not found")
+    SGNVAR = {("x", "l"): "xls", ("x", "u"): "xus", ("y", "l"): "yls", ("y", "u"): "yus"}
+    nstates = npaths = 0
+    for name in sorted(fns):
+        f = fns[name]
+        is_div = name == "div_assign"
+        bad = {}
+
+        def operand(side, val):
+            m = re.match(r"^f_(lower|upper)\((x|y)\)$", val)
+            if not m or side not in ("LOWER", "UPPER") or (side == "LOWER") != (m.group(1) == "lower"):
+                raise absint.Unknown("operand `%s, %s`" % (side, val))
+            return (m.group(2), m.group(1)[0])
+
+        def on_elem(n, env, events):
+            if n["k"] not in ("call", "mcall"):
+                return
+            cn = f.call_name(n).lstrip("~")
+            if cn not in ("mul_assign_z", "div_assign_z", "mul_assign", "div_assign"):
+                return
+            a = [f.text(x).replace(" ", "") for x in f.call_args(n)]
+            if len(a) == 11:
+                o1, o2 = operand(a[3], a[4]), operand(a[7], a[8])
+                signs = (a[6], a[10])
+            elif len(a) == 9:
+                o1, o2 = operand(a[3], a[4]), operand(a[6], a[7])
+                signs = None
+            else:
+                return
+            events.append((a[0], a[1], o1, o2, signs, n))
+
+        for xls, xus, yls, yus in itertools.product((-1, 0, 1), repeat=4):
+            if xls > xus or yls > yus:
+                continue
+            if is_div and (yls == 0 or yus == 0):
+                continue
+            st = {("x", "l"): xls, ("x", "u"): xus, ("y", "l"): yls, ("y", "u"): yus}
+
+            def atom(e, env, it, st=st):
+                if e["k"] not in ("call", "mcall"):
+                    return None
+                cn = f.call_name(e).lstrip("~")
+                a = [f.text(x).replace(" ", "") for x in f.call_args(e)]
+                if cn == "sgn_b" and len(a) == 3:
+                    return {st[operand(a[0], a[1])]}
+                if cn == "infinity_sign" and len(a) == 1:
+                    return {0}
+                if cn == "check_empty_arg":
+                    return {False}
+                if cn in ("gt", "lt", "ge", "le") and len(a) == 6:
+                    return {True, False}
+                return None
+            it = absint.CfgInterp(f, atom, on_elem=on_elem)
+            try:
+                paths = it.run({})
+            except absint.Unknown as ex:
+                raise F.AnalysisBroken("R12.12: %s: %s — the interpretation does not know this form" % (name, ex))
+            nstates += 1
+            # representative operands with these signs
+            reps = [(xl, xu, yl, yu) for xl in _REPS[xls] for xu in _REPS[xus] for yl in _REPS[yls] for yu in _REPS[yus] if xl <= xu and yl <= yu]
+            sg = {-1: "<0", 0: "=0", 1: ">0"}
+            stxt = "xl%s xu%s yl%s yu%s" % (sg[xls], sg[xus], sg[yls], sg[yus])
+            for ret, env, events in paths:
+                c = _ret_call(f, ret)
+                cn = f.call_name(c) if c is not None and c["k"] in ("call", "mcall") else None
+                if cn != "combine":
+                    if events:
+                        bad.setdefault((ret.get("l"), "early"), (ret, "in the state %s bounds are computed but the function returns `%s`" % (stxt, f.text(ret)[:40])))
+                    continue
+                npaths += 1
+                for side, pick in (("LOWER", min), ("UPPER", max)):
+                    cands = [ev_ for ev_ in events if ev_[0] == side]
+                    if not cands:
+                        bad.setdefault((ret.get("l"), side), (ret, "in the state %s no %s bound of the result is computed" % (stxt, side.lower())))
+                        continue
+                    for ev_ in cands:
+                        if ev_[4] is not None and (ev_[4][0] != SGNVAR[ev_[2]] or ev_[4][1] != SGNVAR[ev_[3]]):
+                            bad.setdefault((ev_[5].get("l"), "sign"), (ev_[5], "the signs `%s, %s` accompany the bounds %s and %s: each must be the sign of its own bound (%s, %s)" % (
+                                ev_[4][0], ev_[4][1], "%s%s" % ev_[2], "%s%s" % ev_[3], SGNVAR[ev_[2]], SGNVAR[ev_[3]])))
+                    for xl, xu, yl, yu in reps:
+                        val = {("x", "l"): xl, ("x", "u"): xu, ("y", "l"): yl, ("y", "u"): yu}
+                        from fractions import Fraction
+                        op = (lambda a, b: Fraction(a, b)) if is_div else (lambda a, b: a * b)
+                        true = pick(op(a, b) for a in (xl, xu) for b in (yl, yu))
+                        got = pick(op(val[ev_[2]], val[ev_[3]]) for ev_ in cands)
+                        if got != true:
+                            first = cands[0][5]
+                            bad.setdefault((first.get("l"), side), (first, "in the state %s the %s bound is taken from %s, but for x = [%d, %d], y = [%d, %d] that gives %s while the %s of the four %s is %s" % (
+                                stxt, side.lower(), " and ".join("%s%s %s %s%s" % (e_[2][0], e_[2][1], "/" if is_div else "*", e_[3][0], e_[3][1]) for e_ in cands),
+                                xl, xu, yl, yu, got, "minimum" if pick is min else "maximum", "quotients" if is_div else "products", true)))
+                            break
+        if bad:
+            for key in sorted(bad, key=str):
+                node, msg = bad[key]
+                ctx.violation(rid, "Interval::%s line %s (%s)" % (name, key[0], key[1]), f.where(node), msg)
+        else:
+            ctx.ok(rid, "Interval::%s(x, y) on the signs of the four bounds" % name, f.where())
+    ctx.count(rid, "sign states interpreted", nstates)
+    ctx.count(rid, "paths reaching combine(rl, ru)", npaths)
+    ctx.floor(rid, nstates, 36 + 9, "sign states interpreted")
+    ctx.floor(rid, npaths, 40, "paths reaching combine(rl, ru)")
+
+
 def run(ctx):
     ctx.explanation = ("C12 side discipline of the interval layer on the template patterns of Interval_* and Boundary_defs.hh: consistent (side, value, info) triples, "
                        "direction derived from the side of the bound written, results combined; decides the discipline, not the sign case analysis of mul/div or linearisation")
@@ -496,6 +702,8 @@ def run(ctx):
     r12_8(ctx, fx)
     r12_9(ctx, fx)
     r12_10(ctx, fx)
+    r12_11(ctx, fx)
+    r12_12(ctx, fx)
     from rules import idioms
     ctx.rule("R12.5", "copies agree: the per-format arms of the switches of the floating-point layer (compute_absolute_error caches one result per analysed format and reads the traits of that format) are copies of one another; in each arm the identifiers repeat exactly as in its siblings — the slot tested is the slot returned and the slot filled, and the three traits come from one struct")
     fxf = ctx.extract([F.driver_unit("all_headers.cc", file_re=r"(Float_(templates|inlines)|linearize|Linear_Form_templates|Interval_templates)\.hh")])
